@@ -51,7 +51,7 @@ func OpenStore(backend, dir string) (store.Store, error) {
 		return badgerstore.OpenWithOptions(badger.DefaultOptions("").WithInMemory(true).WithLoggingLevel(badger.ERROR).WithNumCompactors(2).WithNumMemtables(2).WithMemTableSize(8 << 20))
 	case BadgerDisk:
 		return badgerstore.OpenWithOptions(badger.DefaultOptions(dir).WithLoggingLevel(badger.ERROR).
-			WithValueLogFileSize(4 << 20).WithMemTableSize(4 << 20).WithValueThreshold(32 << 10).WithNumCompactors(2).WithNumMemtables(2).
+			WithValueLogFileSize(16 << 20).WithMemTableSize(64 << 20).WithNumCompactors(2).WithNumMemtables(2).
 			WithBlockCacheSize(1 << 20).WithIndexCacheSize(1 << 20))
 	case BadgerDefault:
 		return badgerstore.OpenWithOptions(badger.DefaultOptions(dir).WithLoggingLevel(badger.ERROR))
@@ -126,6 +126,11 @@ type Deco struct {
 	Yield   func() // called before every store call (schedule perturbation)
 	// KeyLog records keys touched by Get/Set/Delete/Item when non-nil.
 	KeyLog func(kind int, key []byte)
+	// OnCall is invoked before every fallible store call with its kind and 1-based position
+	// since Arm (crash engine: the worker kills itself here).
+	OnCall func(kind int, seq int64)
+	// AfterCommit is invoked after the inner commit succeeded, before Commit returns.
+	AfterCommit func(seq int64)
 }
 
 func NewDeco(inner store.Store) *Deco { return &Deco{Inner: inner} }
@@ -166,6 +171,9 @@ func (d *Deco) hit(kind int) error {
 	d.Seq++
 	if d.Record {
 		d.Trace = append(d.Trace, kind)
+	}
+	if f := d.OnCall; f != nil {
+		f(kind, d.Seq)
 	}
 	if d.FailAt > 0 && d.Seq == d.FailAt {
 		d.Fired = true
@@ -238,7 +246,11 @@ func (t *decoTx) Commit() error {
 		t.tx.Rollback()
 		return err
 	}
-	return t.tx.Commit()
+	err := t.tx.Commit()
+	if f := t.d.AfterCommit; f != nil && err == nil {
+		f(t.d.Seq)
+	}
+	return err
 }
 
 func (t *decoTx) Rollback() error { return t.tx.Rollback() }
